@@ -3703,3 +3703,28 @@ mod tests {
         assert_eq!(testgroup_name_1, "testgroup3");
     }
 }
+
+#[cfg(feature = "verif-hooks")]
+impl QueryServer {
+    /// verif hook: the currently published maximum change id timestamp.
+    pub fn verif_cid_max(&self) -> Duration {
+        self.cid_max.read().ts
+    }
+
+    /// verif hook: the change id timestamp persisted in the database, if any.
+    pub fn verif_db_ts_max(&self) -> Result<Option<Duration>, OperationError> {
+        let mut wr = self.be.write()?;
+        // A sentinel that can never be a stored value distinguishes "absent".
+        let sentinel = Duration::new(u64::MAX, 999_999_999);
+        let v = wr.get_db_ts_max(sentinel)?;
+        Ok(if v == sentinel { None } else { Some(v) })
+    }
+}
+
+#[cfg(feature = "verif-hooks")]
+impl QueryServerWriteTransaction<'_> {
+    /// verif hook: the change id of this write transaction.
+    pub fn verif_cid(&self) -> Cid {
+        self.cid.clone()
+    }
+}
